@@ -298,6 +298,14 @@ example : ∀ be ∈ [Backend.ttlv, .xml, .json, .text],
          ⟨false, none⟩, ⟨false, none⟩, ⟨true, none⟩]
         ++ (runOps demoR tinySchema (fresh be) [.encode goodMsg {}, .bytes]).2 := by decide +kernel
 
+/-- the hypotheses of 2e / 2f are satisfiable on a NON-fresh encoder: in the cleared state above (stale bytes under
+    the slice) the codec completes `goodMsg`, and `marshal` succeeds on it. -/
+example : (match encodeFrom tinySchema goodMsg
+      (runOps demoR tinySchema (fresh .ttlv) (abortedHistory ++ [.clear])).1.cell with
+    | .ok _ => true | _ => false) = true ∧
+    (match marshal tinySchema goodMsg.d goodMsg.tag goodMsg.v with | .ok _ => true | _ => false) = true := by
+  decide +kernel
+
 /-- the XML writer after the two aborted calls: three elements open, output pending in the `xml.Encoder`. -/
 example : (runOps demoR tinySchema (fresh .xml) abortedHistory).1.xml.tags = [0x540011, 0x540010, 0x540000] ∧
     (runOps demoR tinySchema (fresh .xml) abortedHistory).1.xml.depth = 3 ∧
@@ -337,15 +345,22 @@ theorem bytes_stable_until_clear (R : Render) (S : Schema) (st : Encoder) (hbe :
   (runOps_stable R S (bytesOp st).view ops (bytesOp st) (by rw [bytesOp_be]; exact hbe) hnc
     (stable_view _)).read
 
-/-- 2i. …and NOT longer (the Go doc: "Bytes returns the internal byte array", "Clear clears the internal buffer
-    without deallocating it"): the slice returned for message 1, read after `Clear; encode message 2`, shows the
-    bytes of message 2. This is documented behaviour of the API, not a defect, but it is an ASSUMPTION of C20 that
-    callers copy or consume the result before the next `Clear` (the library's own `Marshal*` never reuse). -/
 def afterFirst : Encoder :=
   (runOps demoR tinySchema (fresh .ttlv) [.raw [.leaf (.int 0x540001 1)] false, .bytes]).1
 def afterSecond : Encoder :=
   (runOps demoR tinySchema afterFirst [.clear, .raw [.leaf (.int 0x540001 2)] false]).1
 
+/-- 2h on concrete runs: the slice survives appends in place, an aborted call, and the move to a larger array. -/
+example : afterFirst.view.read
+      (runOps demoR tinySchema afterFirst [.raw [.leaf (.int 0x540001 2)] false, .encode badMsg abortJunk,
+        .raw [.leaf (.bytes 0x540002 (List.replicate 100 7))] false, .bytes]).1.buf = enc (.int 0x540001 1) ∧
+    (runOps demoR tinySchema afterFirst [.raw [.leaf (.bytes 0x540002 (List.replicate 100 7))] false]).1.buf.gen
+      ≠ afterFirst.buf.gen := by decide +kernel
+
+/-- 2i. …and NOT longer (the Go doc: "Bytes returns the internal byte array", "Clear clears the internal buffer
+    without deallocating it"): the slice returned for message 1, read after `Clear; encode message 2`, shows the
+    bytes of message 2. This is documented behaviour of the API, not a defect, but it is an ASSUMPTION of C20 that
+    callers copy or consume the result before the next `Clear` (the library's own `Marshal*` never reuse). -/
 theorem bytes_alias_overwritten :
     afterFirst.view.snap = enc (.int 0x540001 1) ∧
     afterFirst.view.read afterSecond.buf = enc (.int 0x540001 2) ∧
